@@ -353,6 +353,218 @@ pub fn norm_min(h: i32) -> usize {
     }
 }
 
+// ==========================================================================================
+// Which words of a horizontal list TeX tries to hyphenate (TeX §891-§899), on an abstract list.
+// ==========================================================================================
+
+/// What the word finder needs to know about a node of a horizontal list (TeX part 10 node types,
+/// reduced to the distinctions §896-§899 make).
+#[derive(Clone, Debug, PartialEq, Eq)]
+pub enum HNode {
+    /// `char_node`: character and font.
+    Char(char, u32),
+    /// `ligature_node`: font and the original characters (`lig_ptr`), possibly none.
+    Lig(u32, Vec<char>),
+    /// `kern_node` with `subtype=normal` (inserted by a font's lig/kern program).
+    ImplicitKern,
+    /// `kern_node` with any other subtype (explicit, accent, math).
+    OtherKern,
+    Whatsit,
+    Glue,
+    Penalty,
+    /// ins_node, adjust_node, mark_node
+    InsAdjustMark,
+    /// hlist, vlist, rule, disc, math - "othercases" in §896 and §899.
+    BoxRuleDiscMath,
+}
+
+/// Why the word finder gave up after a glue node (label `done1`).
+#[derive(Clone, Copy, Debug, PartialEq, Eq)]
+pub enum NoWord {
+    /// §896: the prefix scan met something that is not a character, ligature, implicit kern or
+    /// whatsit before it met a letter (or the list ended).
+    PrefixAborted,
+    /// §899: fewer than `l_hyf + r_hyf` letters.
+    TooShort,
+    /// §899: the nodes after the word do not permit hyphenation (box, rule, disc, math).
+    BadFollower,
+    /// §894: `l_hyf + r_hyf > 63`.
+    MinimumsTooLarge,
+}
+
+#[derive(Clone, Debug, PartialEq, Eq)]
+pub struct FoundWord {
+    /// Index of the glue node that triggered the search (`cur_p`).
+    pub glue: usize,
+    /// Index of the first node of the word (the node after `ha`).
+    pub first: usize,
+    /// Index of the last node that belongs to the word (`hb`): the last letter-carrying node or an
+    /// implicit kern after it.
+    pub last: usize,
+    /// `hu[1..hn]`, as they stand in the list (not lower-cased).
+    pub letters: Vec<char>,
+    /// The word stopped because 63 letters were collected although more letters follow (§897
+    /// `if hn=63 then goto done3`): TeX's implementation limit.
+    pub truncated: bool,
+    /// The font `hf`.
+    pub font: u32,
+    /// `None`: TeX calls `hyphenate`. Otherwise the reason it does not.
+    pub rejected: Option<NoWord>,
+}
+
+/// The two behaviours of the outer loop. `Tex`: every glue node of the list is a starting point
+/// (§866: the main loop of `line_break` visits every node; §894 only peeks ahead from `cur_p`).
+/// `AbortConsumes`: deviation model for the C14 finding "a word after a letterless token is never
+/// tried" - the node on which the prefix scan gives up is consumed by the scan, so if it is a glue
+/// node it never becomes a starting point itself.
+#[derive(Clone, Copy, Debug, PartialEq, Eq)]
+pub enum Scan {
+    Tex,
+    AbortConsumes,
+}
+
+/// Transcription of §894-§899 under the assumptions the implementation documents: `\uchyph>0`,
+/// a valid `\hyphenchar`, `is_letter(c)` <=> `lc_code(c)<>0`.
+/// Returns, for every glue node that is a starting point, either the word found (with its verdict)
+/// or nothing (prefix aborted).
+pub fn find_words(
+    list: &[HNode],
+    is_letter: &dyn Fn(char) -> bool,
+    left_min: i32,
+    right_min: i32,
+    scan: Scan,
+) -> Vec<FoundWord> {
+    let l_hyf = norm_min(left_min);
+    let r_hyf = norm_min(right_min);
+    let mut out = vec![];
+    let mut cur = 0usize;
+    while cur < list.len() {
+        if list[cur] != HNode::Glue {
+            cur += 1;
+            continue;
+        }
+        let glue = cur;
+        cur += 1;
+        // §896: skip to node ha, or goto done1
+        let mut s = glue + 1;
+        let hf: u32;
+        loop {
+            let c: char;
+            let f: u32;
+            match list.get(s) {
+                Some(HNode::Char(ch, font)) => {
+                    c = *ch;
+                    f = *font;
+                }
+                Some(HNode::Lig(font, orig)) => {
+                    if orig.is_empty() {
+                        s += 1;
+                        continue;
+                    }
+                    c = orig[0];
+                    f = *font;
+                }
+                Some(HNode::ImplicitKern) | Some(HNode::Whatsit) => {
+                    s += 1;
+                    continue;
+                }
+                _ => {
+                    // done1
+                    if scan == Scan::AbortConsumes && s < list.len() {
+                        cur = s + 1;
+                    }
+                    s = usize::MAX;
+                    break;
+                }
+            }
+            if is_letter(c) {
+                hf = f;
+                // (uc_hyph>0: upper-case letters are accepted as well)
+                let first = s;
+                // §897-§898: skip to node hb, putting letters into hu
+                let mut letters: Vec<char> = vec![];
+                let mut hb = s;
+                let mut truncated = false;
+                loop {
+                    match list.get(s) {
+                        Some(HNode::Char(ch, font)) => {
+                            if *font != hf || !is_letter(*ch) {
+                                break;
+                            }
+                            if letters.len() == 63 {
+                                truncated = true;
+                                break;
+                            }
+                            letters.push(*ch);
+                            hb = s;
+                        }
+                        Some(HNode::Lig(font, orig)) => {
+                            if *font != hf {
+                                break;
+                            }
+                            // all characters must be letters and fit, otherwise hn stays
+                            if !orig.iter().all(|c| is_letter(*c)) {
+                                break;
+                            }
+                            if letters.len() + orig.len() > 63 {
+                                truncated = true;
+                                break;
+                            }
+                            letters.extend(orig.iter());
+                            hb = s;
+                        }
+                        Some(HNode::ImplicitKern) => {
+                            hb = s;
+                        }
+                        _ => break,
+                    }
+                    s += 1;
+                }
+                // §894 / §899
+                let mut rejected = None;
+                if l_hyf + r_hyf > 63 {
+                    rejected = Some(NoWord::MinimumsTooLarge);
+                } else if letters.len() < l_hyf + r_hyf {
+                    rejected = Some(NoWord::TooShort);
+                } else {
+                    let mut t = s;
+                    loop {
+                        match list.get(t) {
+                            Some(HNode::Char(..)) | Some(HNode::Lig(..)) | Some(HNode::ImplicitKern) => {}
+                            Some(HNode::OtherKern)
+                            | Some(HNode::Whatsit)
+                            | Some(HNode::Glue)
+                            | Some(HNode::Penalty)
+                            | Some(HNode::InsAdjustMark) => break,
+                            Some(HNode::BoxRuleDiscMath) => {
+                                rejected = Some(NoWord::BadFollower);
+                                break;
+                            }
+                            // TeX's lists end with \penalty10000\parfillskip; a list that simply
+                            // ends is treated like one that ends with them.
+                            None => break,
+                        }
+                        t += 1;
+                    }
+                }
+                out.push(FoundWord {
+                    glue,
+                    first,
+                    last: hb,
+                    letters,
+                    truncated,
+                    font: hf,
+                    rejected,
+                });
+                break;
+            }
+            s += 1;
+        }
+        let _ = s;
+    }
+    out
+}
+
 #[cfg(test)]
 mod tests {
     use super::*;
